@@ -568,11 +568,19 @@ func (d *Directory) handleModify(t TestingT) func(w *gldap.ResponseWriter, r *gl
 					e.Attributes = e.Attributes[:len(e.Attributes)-1]
 				}
 			case gldap.ReplaceAttribute:
+				// the request carries BER-encoded values
+				vals, err := gldap.ConvertString(chg.Modification.Vals...)
+				if err != nil {
+					res.SetResultCode(gldap.ResultInvalidAttributeSyntax)
+					res.SetDiagnosticMessage(fmt.Sprintf("unable to decode values of %s: %s", chg.Modification.Type, err.Error()))
+					return
+				}
 				if foundAttr != nil {
-					// we're updating what the ptr points at, so disable lint of
-					// unused var
-					//nolint:staticcheck
-					foundAttr = gldap.NewEntryAttribute(chg.Modification.Type, chg.Modification.Vals)
+					// replace the attribute in the entry itself (assigning to
+					// the local pointer would be lost)
+					e.Attributes[foundAt] = gldap.NewEntryAttribute(chg.Modification.Type, vals)
+				} else {
+					e.Attributes = append(e.Attributes, gldap.NewEntryAttribute(chg.Modification.Type, vals))
 				}
 			}
 		}
